@@ -301,6 +301,10 @@ class Tree(object):
 
         node = self._graph.num_nodes() - 1
 
+        while node in self._node_indices:
+            # Names are no longer contiguous after pruning or grafting: never reuse the name of a live clone
+            node += 1
+
         self._add_node(node)
 
         root_idx = self._node_indices[self._ROOT_NODE_NAME]
